@@ -32,7 +32,9 @@ func gen(seed uint64, tier string) []interface{} {
 		case q < 17:
 			c = trig.GenShadow(r.Fork(), id, tier)
 		case q < 18:
-			switch r.Intn(3) {
+			switch r.Intn(4) {
+			case 3:
+				c = trig.GenRefused(r.Fork(), id, tier)
 			case 0:
 				c = trig.GenGrow(r.Fork(), id, tier)
 			case 1:
